@@ -1723,6 +1723,8 @@ struct FactScan<'a> {
     wake_sites: Vec<serde_json::Value>,
     poll_sites: Vec<serde_json::Value>,
     slots_writes: Vec<serde_json::Value>,
+    mark_sites: Vec<serde_json::Value>,
+    atomic_sites: Vec<serde_json::Value>,
     calls: BTreeMap<String, BTreeSet<String>>,
     call_seq: BTreeMap<String, Vec<(usize, String)>>,
     macros: BTreeMap<String, BTreeSet<String>>,
@@ -1824,6 +1826,15 @@ impl<'a, 'ast> Visit<'ast> for FactScan<'a> {
                     self.slots_writes.push(json!({"file": f, "line": l, "fn": self.fname(), "what": format!("{last2}({args})")}));
                 }
             }
+            if matches!(segs.last().map(|s| s.as_str()), Some("fence") | Some("compiler_fence")) {
+                let ords: Vec<String> = c.args.iter().filter_map(|a| {
+                    let t: String = self.src.slice(self.src.range(a.span())).split_whitespace().collect();
+                    let last = t.rsplit("::").next().unwrap_or("").to_string();
+                    if matches!(last.as_str(), "Relaxed" | "Acquire" | "Release" | "AcqRel" | "SeqCst") { Some(last) } else { None }
+                }).collect();
+                let (f, l) = self.here(c.func.span());
+                self.atomic_sites.push(json!({"file": f, "line": l, "fn": self.fname(), "op": segs.last().unwrap().clone(), "receiver": "", "orderings": ords}));
+            }
             if segs.last().map(|s| s == "poll_fn").unwrap_or(false) && segs.len() == 1 {
                 let (f, l) = self.here(c.func.span());
                 self.poll_sites.push(json!({"file": f, "line": l, "fn": self.fname(), "callee": "poll_fn"}));
@@ -1843,6 +1854,26 @@ impl<'a, 'ast> Visit<'ast> for FactScan<'a> {
                 let recv = self.src.slice(self.src.range(mc.receiver.span())).to_string();
                 let (f, l) = self.here(mc.method.span());
                 self.wake_sites.push(json!({"file": f, "line": l, "fn": self.fname(), "receiver": recv}));
+            }
+            "push" | "enqueue" if m == "enqueue" || {
+                let r: String = self.src.slice(self.src.range(mc.receiver.span())).split_whitespace().collect();
+                r == "shared" || r.ends_with(".shared")
+            } => {
+                // a slot is put on the ready queue without its waker being invoked
+                let recv: String = self.src.slice(self.src.range(mc.receiver.span())).split_whitespace().collect();
+                let (f, l) = self.here(mc.method.span());
+                self.mark_sites.push(json!({"file": f, "line": l, "fn": self.fname(), "callee": m, "receiver": recv}));
+            }
+            "load" | "store" | "swap" | "fetch_add" | "fetch_sub" | "fetch_or" | "fetch_and" | "fetch_xor" | "fetch_update" | "compare_exchange" | "compare_exchange_weak" | "compare_and_swap" | "fence"
+                if self.src.slice(self.src.range(mc.args.span())).contains("Ordering::") || mc.args.iter().any(|a| { let t: String = self.src.slice(self.src.range(a.span())).split_whitespace().collect(); matches!(t.as_str(), "Relaxed" | "Acquire" | "Release" | "AcqRel" | "SeqCst") }) => {
+                let recv: String = self.src.slice(self.src.range(mc.receiver.span())).split_whitespace().collect();
+                let ords: Vec<String> = mc.args.iter().filter_map(|a| {
+                    let t: String = self.src.slice(self.src.range(a.span())).split_whitespace().collect();
+                    let last = t.rsplit("::").next().unwrap_or("").to_string();
+                    if matches!(last.as_str(), "Relaxed" | "Acquire" | "Release" | "AcqRel" | "SeqCst") { Some(last) } else { None }
+                }).collect();
+                let (f, l) = self.here(mc.method.span());
+                self.atomic_sites.push(json!({"file": f, "line": l, "fn": self.fname(), "op": m, "receiver": recv, "orderings": ords}));
             }
             "poll" | "poll_next" | "try_poll" | "try_poll_next" | "poll_inner" | "poll_inner_no_remove" => {
                 let recv: String = self.src.slice(self.src.range(mc.receiver.span())).split_whitespace().collect();
@@ -1870,6 +1901,8 @@ fn emit_facts(srcs: &HashMap<String, Src>, all: &[String], path: &Path) -> Resul
     let mut wake_sites = vec![];
     let mut poll_sites = vec![];
     let mut slots_writes = vec![];
+    let mut mark_sites = vec![];
+    let mut atomic_sites = vec![];
     let mut calls: BTreeMap<String, BTreeSet<String>> = BTreeMap::new();
     let mut macros: BTreeMap<String, BTreeSet<String>> = BTreeMap::new();
     let mut seqs: BTreeMap<String, Vec<String>> = BTreeMap::new();
@@ -1877,13 +1910,15 @@ fn emit_facts(srcs: &HashMap<String, Src>, all: &[String], path: &Path) -> Resul
     let mut structs: Vec<serde_json::Value> = vec![];
     for rel in all {
         let src = &srcs[rel];
-        let mut fs = FactScan { src, cur_fn: vec![], unsafe_sites: vec![], wake_sites: vec![], poll_sites: vec![], slots_writes: vec![], calls: BTreeMap::new(), call_seq: BTreeMap::new(), macros: BTreeMap::new(), in_test: false };
+        let mut fs = FactScan { src, cur_fn: vec![], unsafe_sites: vec![], wake_sites: vec![], poll_sites: vec![], slots_writes: vec![], mark_sites: vec![], atomic_sites: vec![], calls: BTreeMap::new(), call_seq: BTreeMap::new(), macros: BTreeMap::new(), in_test: false };
         fs.visit_file(&src.ast);
         let _ = fs.in_test;
         unsafe_sites.extend(fs.unsafe_sites);
         wake_sites.extend(fs.wake_sites);
         poll_sites.extend(fs.poll_sites);
         slots_writes.extend(fs.slots_writes);
+        mark_sites.extend(fs.mark_sites);
+        atomic_sites.extend(fs.atomic_sites);
         for (k, v) in fs.calls { calls.entry(format!("{rel}:{k}")).or_default().extend(v); }
         for (k, v) in fs.macros { macros.entry(format!("{rel}:{k}")).or_default().extend(v); }
         for (k, mut v) in fs.call_seq { v.sort(); seqs.insert(format!("{rel}:{k}"), v.into_iter().map(|x| x.1).collect::<Vec<String>>()); }
@@ -1904,6 +1939,7 @@ fn emit_facts(srcs: &HashMap<String, Src>, all: &[String], path: &Path) -> Resul
         }
     }
     let v = json!({"unsafe_sites": unsafe_sites, "wake_sites": wake_sites, "poll_sites": poll_sites, "slots_writes": slots_writes,
+        "mark_sites": mark_sites, "atomic_sites": atomic_sites,
         "calls": calls, "call_seq": seqs, "macros": macros, "impls": impls, "structs": structs});
     std::fs::write(path, serde_json::to_string_pretty(&v).unwrap()).map_err(|e| format!("{}: {e}", path.display()))
 }
